@@ -41,10 +41,16 @@ type connPool struct {
 }
 
 // nolint: gochecknoglobals
-var pool = make(map[string]*connPool)
+var (
+	pool     = make(map[string]*connPool)
+	poolLock sync.Mutex
+)
 
 func getConnPool(prov transport.Provider) *connPool {
 	id := prov.AriesFrameworkID()
+
+	poolLock.Lock()
+	defer poolLock.Unlock()
 
 	if _, ok := pool[id]; !ok {
 		pool[id] = &connPool{
